@@ -24,7 +24,16 @@ pub enum PreJob {
     Dealer { id: String, n: usize, l_rand: usize, l_and: usize, seed: u64 },
     /// correlated OT of length m between two parties; order: "sr" party 0 sends first then receives,
     /// choices: "zero" | "one" | "random"
-    Ot { id: String, m: usize, choices: String, seed: u64, both: bool },
+    Ot {
+        id: String,
+        m: usize,
+        choices: String,
+        seed: u64,
+        both: bool,
+        /// correlation vector: "" / "random", "zero", "sparse" (zero, all-ones and one-bit entries mixed in), "const"
+        #[serde(default)]
+        corr: String,
+    },
 }
 
 fn share_json(s: &polytune::verif::PShare) -> Value {
@@ -90,7 +99,7 @@ pub fn run_pre(job: &PreJob) -> String {
             .to_string()
         }
         PreJob::Dealer { id, n, l_rand, l_and, seed } => dealer(id, *n, *l_rand, *l_and, *seed),
-        PreJob::Ot { id, m, choices, seed, both } => ot(id, *m, choices, *seed, *both),
+        PreJob::Ot { id, m, choices, seed, both, corr } => ot(id, *m, choices, corr, *seed, *both),
     }
 }
 
@@ -167,7 +176,7 @@ fn block_to_u128(b: Block) -> u128 {
     u128::from_be_bytes(a)
 }
 
-fn ot(id: &str, m: usize, choices: &str, seed: u64, both: bool) -> String {
+fn ot(id: &str, m: usize, choices: &str, corr: &str, seed: u64, both: bool) -> String {
     let net = Rc::new(RefCell::new(Net::new(2, 1)));
     net.borrow_mut().record_events = true;
     let mut rng = ChaCha8Rng::seed_from_u64(seed);
@@ -183,11 +192,23 @@ fn ot(id: &str, m: usize, choices: &str, seed: u64, both: bool) -> String {
     let c0 = mk_choices(&mut rng);
     let c1 = mk_choices(&mut rng);
     let mk_deltas = |rng: &mut ChaCha8Rng| -> Vec<Block> {
+        let mut c = [0u8; 16];
+        rng.fill_bytes(&mut c);
         (0..m)
-            .map(|_| {
+            .map(|k| {
                 let mut b = [0u8; 16];
                 rng.fill_bytes(&mut b);
-                Block::from(b)
+                match corr {
+                    "zero" => Block::from([0u8; 16]),
+                    "const" => Block::from(c),
+                    "sparse" => match k % 4 {
+                        0 => Block::from([0u8; 16]),
+                        1 => Block::from(b),
+                        2 => Block::from([0xffu8; 16]),
+                        _ => Block::from(1u128 << (b[0] % 128)),
+                    },
+                    _ => Block::from(b),
+                }
             })
             .collect()
     };
